@@ -74,17 +74,24 @@ def event(seed: int) -> list:
             ev["ret"] = par.replace(rx, new.replace("\\", "\\\\"), formatted=o["formatted"])
         else:
             o["op"] = "search"
-            own = par.text_recursive
-            ev["own"] = cps(own)
             ev["linkfree"] = not any(t["k"] == "o" and t["tag"] == "a" for t in tokens)
+            tgt = par
+            subs = par.get_elements("descendant::text:span|descendant::text:a")
+            if subs and rng.random() < 0.4:
+                # the same calls on an inline element of the paragraph: its own text includes its tail
+                tgt = rng.choice(subs)
+                o["on"] = "inline"
+                ev["linkfree"] = False     # the clauses stated on the whole paragraph do not apply
+            own = tgt.text_recursive
+            ev["own"] = cps(own)
             found = []
-            for s, e in par.search_all(rx):
-                found.append({"s": s, "e": e, "text": cps(par.text_at(s, e))})
-            first = par.search_first(rx)
-            pos = par.search(rx)
+            for s, e in tgt.search_all(rx):
+                found.append({"s": s, "e": e, "text": cps(tgt.text_at(s, e))})
+            first = tgt.search_first(rx)
+            pos = tgt.search(rx)
             ev["found"] = found
             ev["first_ok"] = (first is None and not found) or (first is not None and found and list(first) == [found[0]["s"], found[0]["e"]] and pos == first[0])
-            ev["match_ok"] = par.match(rx) == bool(found)
+            ev["match_ok"] = tgt.match(rx) == bool(found)
             # the matched texts, as Python's re finds them in the element's own text
             ev["expect"] = [[m.start(), m.end()] for m in re.finditer(rx, own)]
     except Exception as ex:  # noqa: BLE001
